@@ -531,12 +531,18 @@ theorem ternOfCE_sem (x : CExpr) {cc ca cb fc fa fb : CE} (rc : CERel ms σ (nor
   unfold ternOfCE
   have hk : cc.kind = fc.kind := by rw [← rc.kind, normTy_kind]
   simp only [cfgsimp, if_true, Bool.false_eq_true, if_false, ← hk]
-  have hconst : (decide (32 ≤ ca.ty.width) && decide (32 ≤ cb.ty.width) && ca.ty.eqv cb.ty) = true →
-      castOperands Cfg.fixed (promotionCast Cfg.fixed fa) (promotionCast Cfg.fixed fb) = (fa, fb) := by
-    intro h
-    simp only [Bool.and_eq_true, decide_eq_true_eq] at h
-    rw [promotionCast_of_wide _ _ (ra.ty ▸ h.1.1), promotionCast_of_wide _ _ (rb.ty ▸ h.1.2),
-      castOperands_of_eqv _ _ _ (by rw [← ra.ty, ← rb.ty]; exact h.2)]
+  -- constant condition: the repaired lowering returns its live arm as it is, too (`liveKeepsTy`, `liveArm_fixed`)
+  have hconst : ∀ first : Bool, liveKeepsTy first ca cb = true →
+      CERel ms σ (if first = true then ca else cb)
+        (if first = true then (castOperands Cfg.fixed (promotionCast Cfg.fixed fa) (promotionCast Cfg.fixed fb)).1
+         else (castOperands Cfg.fixed (promotionCast Cfg.fixed fa) (promotionCast Cfg.fixed fb)).2) := by
+    intro first h
+    have h' : liveKeepsTy first fa fb = true := by
+      unfold liveKeepsTy at h ⊢; rw [← ra.ty, ← rb.ty]; exact h
+    rw [liveArm_fixed first fa fb h']
+    cases first with
+    | true => exact ra
+    | false => exact rb
   have hwide : condSafe x cc = true ∧ wideSafeSem ca cb = true →
       CERel ms σ { il := .ite (condIL Cfg.asCode cc) (castOperands Cfg.asCode ca cb).1.il (castOperands Cfg.asCode ca cb).2.il,
                    ty := (castOperands Cfg.asCode ca cb).1.ty, kind := .plain }
@@ -554,16 +560,10 @@ theorem ternOfCE_sem (x : CExpr) {cc ca cb fc fa fb : CE} (rc : CERel ms σ (nor
   cases hkc : cc.kind with
   | lit v =>
     simp only [hkc] at h
-    simp only [hconst h]
-    split
-    · exact ra
-    · exact rb
+    exact hconst _ h
   | boolLit r =>
     simp only [hkc] at h
-    simp only [hconst h]
-    split
-    · exact ra
-    · exact rb
+    exact hconst _ h
   | plain =>
     simp only [hkc, Bool.and_eq_true] at h
     exact hwide h
